@@ -1,0 +1,20 @@
+//go:build verif
+
+package version
+
+import "github.com/lindb/lindb/kv/table"
+
+// VerifC15NewSnapshot returns a real snapshot over a stand-alone version that holds exactly the
+// given files per level (levels[0] = level 0, ...). The version is not attached to a family
+// version; it carries one extra reference so that Snapshot.Close never takes it to zero.
+// Verification hook (C15: FindFiles / FindReaders / Load): no production code path calls it.
+func VerifC15NewSnapshot(familyName string, levels [][]*FileMeta, cache table.Cache) Snapshot {
+	v := &version{numOfLevels: len(levels), rollup: newRollup()}
+	v.levels = make([]*level, len(levels))
+	for i := range levels {
+		v.levels[i] = newLevel()
+		v.levels[i].addFiles(levels[i]...)
+	}
+	v.ref.Inc()
+	return newSnapshot(familyName, v, cache)
+}
